@@ -74,11 +74,11 @@ PROPS = {
         "level": "proof",
         "technique": "Verus contracts on the real check_time_locks (extracted verbatim): iff-postcondition against per-assertion saturating-arithmetic spec, loop invariant over all spends",
         "level_text": "Deductive proof (Verus/Z3) over all inputs: check_time_locks returns Ok exactly when every folded assertion holds with saturating sums; unbounded in number of spends and in all u32/u64 values.",
-        "level_note": "Assumes vstd HashMap model and key model for Bytes32; nowrap=true mode only. Folding (max for after-locks, min for before-locks, birth agreement, impossible-window rejection, relative-condition mark) is proved for parse_conditions against the effect spec; validate_conditions (unit validate_conds) is proved to accept iff no absolute before-lock is <= the absolute after-lock and no spend with a relative lock is ephemeral (iff, with is_ephemeral against its definition); the spec-level lemma fold-then-check == check-each is not machine-checked.",
+        "level_note": "Assumes vstd HashMap model and key model for Bytes32; both checking modes are specified (saturating sums in the consensus mode, modular sums in the legacy mode). Spec-level lemmas (lemma_after_fold, lemma_before_fold, lemma_relative_after_fold) prove that testing a max-/min-folded lock is the same as testing every individual assertion, for any number of assertions, including saturating relative sums. Folding (max for after-locks, min for before-locks, birth agreement, impossible-window rejection, relative-condition mark) is proved for parse_conditions against the effect spec; validate_conditions (unit validate_conds) is proved to accept iff no absolute before-lock is <= the absolute after-lock and no spend with a relative lock is ephemeral (iff, with is_ephemeral against its definition); ",
         "components": [V("time_locks"), V("conditions_effects"), V("validate_conds"), V("conditions_record")],
         "assumptions": [
             "vstd HashMap model; obeys_key_model::<Bytes32>() assumed (derived Hash/Eq on a byte array)",
-            "nowrap=true only (legacy wrapping mode is outside the statement)",
+            "the legacy wrapping mode (nowrap=false, outside the statement) is specified as addition modulo 2^width and proved as well",
         ],
         "not_covered": [],
     },
